@@ -338,8 +338,29 @@ theorem known_finding_setreadonly_close (hf : codeCfg.setReadOnlyReleasesOnClose
 theorem asIs_not_released : ∃ s, Reachable Cfg.asIs s ∧ ¬ RInv s :=
   ⟨otxLeakSt, ⟨2, otxLeakRun⟩, fun h => by have := h.tokI; revert this; decide⟩
 
+/-! ### the code as it is now: all four release facts hold (the SetReadOnly/Close leak was repaired too) -/
+
+/-- regenerated tie: the four release facts read off the Go source are all true; un-fixing any of them
+in the source breaks this `decide` -/
+theorem code_all_fixed : codeCfg = Cfg.repaired := by decide
+
+theorem code_covered_all (s : St) (hr : Reachable codeCfg s) : Covered codeCfg s :=
+  ⟨code_three_fixed, Or.inl ⟨by decide, hr⟩⟩
+
+/-- for EVERY reachable state of the code's configuration, runs with `SetReadOnly` included -/
+theorem code_all_released_on_return (s : St) (hr : Reachable codeCfg s) : ReleasedOnReturn s :=
+  released_on_return codeCfg s (code_covered_all s hr)
+theorem code_all_progress (s : St) (hr : Reachable codeCfg s) : Progress codeCfg s :=
+  progress codeCfg s (code_covered_all s hr)
+theorem code_all_recovers_after_faults (s : St) (hr : Reachable codeCfg s) : RecoversAfterFaults codeCfg s :=
+  recovers_after_faults codeCfg s (code_covered_all s hr)
+theorem code_all_close_returns (s : St) (hr : Reachable codeCfg s) : CloseReturns codeCfg s :=
+  close_returns codeCfg s (code_covered_all s hr)
+
 def theorems : List String :=
-  ["GoLevel.C09.code_three_fixed",
+  ["GoLevel.C09.code_three_fixed", "GoLevel.C09.code_all_fixed",
+   "GoLevel.C09.code_all_released_on_return", "GoLevel.C09.code_all_progress",
+   "GoLevel.C09.code_all_recovers_after_faults", "GoLevel.C09.code_all_close_returns",
    "GoLevel.C09.released_on_return", "GoLevel.C09.nothing_held_when_quiet", "GoLevel.C09.progress",
    "GoLevel.C09.recovers_after_faults", "GoLevel.C09.close_returns",
    "GoLevel.C09.code_released_on_return", "GoLevel.C09.code_progress",
